@@ -106,11 +106,11 @@ func runC13(c *Ctx) []Violation {
 	case 0:
 		w = pickWorld(c, worldOpts{CorpusWeight: 1})
 	case 1:
-		w = world.Generate(c.T, world.GenOpts{MinRecs: 2, MaxRecs: 10})
+		w = genWorld(c, world.GenOpts{MinRecs: 2, MaxRecs: 10})
 	case 2:
-		w = world.Generate(c.T, world.GenOpts{MinRecs: 2, MaxRecs: 10, Family: "collide"})
+		w = genWorld(c, world.GenOpts{MinRecs: 2, MaxRecs: 10, Family: "collide"})
 	default:
-		w = world.Generate(c.T, world.GenOpts{MinRecs: 2, MaxRecs: 8, Family: "ancestor-js", Formats: []string{"xml", "json", "edi", "csv2", "fixedlength2", "fixed-length"}})
+		w = genWorld(c, world.GenOpts{MinRecs: 2, MaxRecs: 8, Family: "ancestor-js", Formats: []string{"xml", "json", "edi", "csv2", "fixedlength2", "fixed-length"}})
 	}
 	if fam != 0 {
 		c.Count("world.format."+w.Format, 1)
@@ -134,6 +134,23 @@ func runC13(c *Ctx) []Violation {
 	}
 	c.Sample = map[string]interface{}{"world": w.Name, "configuration": cfg.describe, "results": len(ref.Entries)}
 	d := run.FirstDiff(rk, gk)
+	if d < 0 && cfg.tcOff {
+		// Both runs above went through the harness's re-implementation of the ingester loop, which makes
+		// a fresh evaluation context per record as the library's own loop does. The library's own loop
+		// must give the same results: if it does not, its per-record transform cache is not per record.
+		real := c13Drive(c, w, base, -1, -1, false, false)
+		if dd := run.FirstDiff(real.Keys(), rk); dd >= 0 {
+			v := viol("C13.transform-cache-scope", fmt.Sprintf("%s: result #%d of the library's ingester differs from a run that evaluates every record in a fresh context with an empty transform cache", w.Format, dd+1),
+				"world: "+w.Name, "library ingester:               "+run.ShowKey(real.Keys(), dd), "fresh context for every record: "+run.ShowKey(rk, dd))
+			if len(w.Schema) < 8000 {
+				v.Detail = append(v.Detail, "schema: "+string(w.Schema))
+			}
+			if len(w.Input) < 3000 {
+				v.Detail = append(v.Detail, fmt.Sprintf("input: %q", string(w.Input)))
+			}
+			return []Violation{v}
+		}
+	}
 	if d < 0 {
 		return nil
 	}
